@@ -16,7 +16,7 @@ import copy
 import numpy as np
 
 from .. import zoo, mp_stub
-from ..kernel import (Violation, call, close, identical, is_exc, short,
+from ..kernel import (Held, Violation, call, close, identical, is_exc, short,
                       snapshot, snapshot_equal)
 
 PROP = 'C19'
@@ -435,6 +435,7 @@ def run(scenario, world):
                     'the %s handed to the constructor of %s was modified' % (
                         what, h_), step)
     data_dirty = set()
+    held = Held()
     check_inputs(-1)
     # building the derived objects must leave the user's own models as they
     # were: compare their names with those of the same model built alone
@@ -537,6 +538,13 @@ def run(scenario, world):
             res = call(query, obj, kind, q, x, aux)
             faulted = any('fault' in r for r in world.solver_runs)
             world.end_op()
+            # what earlier evaluations returned is the caller's
+            held.verify(step)
+            if q not in ('regimen', 'names', 'c_names') and not (
+                    isinstance(res, tuple) and len(res) == 2
+                    and np.isscalar(res[0]) and not np.isfinite(res[0])):
+                # (not the uninitialised gradient next to a -inf score)
+                held.keep('%s.%s (step %d)' % (kind, q, step), res)
             # (d) arguments unchanged
             if not snapshot_equal(snap_x, x) or any(
                     not snapshot_equal(snap_aux[k], aux[k]) for k in aux):
